@@ -121,7 +121,57 @@ pub fn prequery(w: &World, obs: &Obs, step: &Step, prop: &str) -> PreQ {
     p
 }
 
+/// The configuration a statement speaks of ("the vAMM's toll ratio", "the maintenance ratio", "the holding cap") is the
+/// one the accepted configuration calls of the history left. Before every step the values the contracts report are
+/// compared with that history; a difference is a violation of the properties whose statements depend on the field.
+fn configured_values(prop: &str, ctx: &Ctx, w: &World, ev: &mut Ev) {
+    if w.cfg.kind == WorldKind::FeedOnly {
+        return;
+    }
+    let fields: &[&str] = match prop {
+        "C05" => &["initial", "maintenance"],
+        "C06" | "C07" => &["maintenance", "partial", "liq_fee"],
+        "C12" => &["toll", "spread"],
+        "C15" => &["fluct", "partial"],
+        "C17" => &["partial"],
+        "C20" => &["holding_cap", "oi_cap", "toll", "spread", "fluct", "twap_interval", "initial", "maintenance", "partial", "liq_fee"],
+        _ => return,
+    };
+    let mut check = |ev: &mut Ev, scope: String, field: &'static str, reported: U, hist: Option<&U>| {
+        if let Some(h) = hist {
+            if fields.contains(&field) && *h != reported {
+                let key = format!("cfg:{}:{}", scope, field);
+                if !ev.poisoned.contains(&key) {
+                    ev.poisoned.insert(key);
+                    ev.violation("configured_value_lost", &format!("{},{}", if scope == "engine" { "engine" } else { "vamm" }, field), json!({"where": scope, "field": field, "reported_by_contract": reported.to_string(), "left_by_accepted_calls": h.to_string()}));
+                }
+            }
+        }
+    };
+    if let Some(e) = &ctx.pre.eng {
+        let m = &ctx.model.eng_cfg_ref;
+        check(ev, "engine".into(), "initial", e.initial, m.get("initial"));
+        check(ev, "engine".into(), "maintenance", e.maintenance, m.get("maintenance"));
+        check(ev, "engine".into(), "partial", e.partial, m.get("partial"));
+        check(ev, "engine".into(), "liq_fee", e.liq_fee, m.get("liq_fee"));
+    }
+    for (i, v) in ctx.pre.vamms.iter().enumerate() {
+        if !v.ok {
+            continue;
+        }
+        if let Some(m) = ctx.model.vamm_cfg_ref.get(i) {
+            check(ev, format!("vamm{}", i), "holding_cap", v.holding_cap, m.get("holding_cap"));
+            check(ev, format!("vamm{}", i), "oi_cap", v.oi_cap, m.get("oi_cap"));
+            check(ev, format!("vamm{}", i), "toll", v.toll, m.get("toll"));
+            check(ev, format!("vamm{}", i), "spread", v.spread, m.get("spread"));
+            check(ev, format!("vamm{}", i), "fluct", v.fluct, m.get("fluct"));
+            check(ev, format!("vamm{}", i), "twap_interval", v.twap_interval as U, m.get("twap_interval"));
+        }
+    }
+}
+
 pub fn step(prop: &str, ctx: &Ctx, w: &World, ev: &mut Ev) {
+    configured_values(prop, ctx, w, ev);
     match prop {
         "C01" => c01::step(ctx, w, ev),
         "C02" => c02::step(ctx, w, ev),
